@@ -209,7 +209,15 @@ def handle (op : String) (j : Json) : Except String Json := do
     let t ← treeOfJson (← field j "tree")
     .ok (okJson (obj [("text", optToJson Json.str (QuaText.emitQua t)),
                       ("doc", optToJson docToJson (QuaText.treeDoc t)),
-                      ("nodup", Json.bool (QuaText.treeNodup t))]))
+                      ("nodup", Json.bool (QuaText.treeNodup t)),
+                      ("bad", listToJson (fun L => Json.str (String.ofList L.key))
+                                ((QuaText.emitTree t).filter (fun L => (QuaText.renderLine L).isNone)))]))
+  | "c06.emit_entries" =>
+    let t ← treeOfJson (← field j "tree")
+    .ok (okJson (listToJson (fun e => optToJson Json.str (QuaText.emitQua [e])) t))
+  | "c06.parse_segments" =>
+    let segs ← getArr strOf? j "segs"
+    .ok (okJson (listToJson (fun s => optToJson treeToJson (QuaText.parseQua s)) segs))
   | "c06.parse_text" =>
     let s ← getStr j "text"
     let t := QuaText.parseQua s
